@@ -310,7 +310,7 @@ class RandGen:
 
 
 def random_test(uni, rng, idx, nops=40, nslots=8, p_reopen=0.06, p_batch=0.12, p_del=0.15, cfgs=None, pal=None, fields=None,
-                case_heavy=False, p_query=0.0, abandon=False, p_bad=0.0):
+                case_heavy=False, p_query=0.0, abandon=False, p_bad=0.0, max_chain=2):
     g = RandGen(uni, rng, pal=pal, fields=fields, case_heavy=case_heavy, nslots=nslots)
     c = rng.choice(cfgs) if cfgs else (rng.random() < 0.5, rng.random() < 0.35)
     ops = []
@@ -329,7 +329,7 @@ def random_test(uni, rng, idx, nops=40, nslots=8, p_reopen=0.06, p_batch=0.12, p
             elif y < 0.78:
                 ops.append({"op": "delall"})
             else:
-                ops.append({"op": "delsearch", "q": g.chain(depth=rng.choice([1, 1, 2]))})
+                ops.append({"op": "delsearch", "q": g.chain(depth=rng.choice([1, 1, max_chain]))})
         elif x < p_reopen + p_batch + p_del + 0.08:
             ops.append({"op": "obs", "light": rng.random() < 0.5})
         elif x < p_reopen + p_batch + p_del + 0.08 + p_query:
